@@ -153,7 +153,16 @@ void h_run(void) {
     if (!r) break;
   }
   if (npopped != npushed) sim_violation("C13-lost-value", "%d values pushed, %d popped after the final drain", npushed, npopped);
-  mpmc_fifo_destroy(hptr, &fifo); /* teardown: the remaining dummy node is retired, then every record destroyed */
+  /* teardown: a queue that still holds nodes is destroyed (every node is retired through the hazard-pointer
+   * record, which may cross the scan threshold in the middle of the walk), then every record */
+  const int leftover = wl_int(0, 3 * (nth + 1) * MPMC_HAZARD_COUNT);
+  for (int k = 0; k < leftover; k++) {
+    mpmc_fifo_node_t* n = get_node();
+    n->value = (void*)(long)(0x7000 + k);
+    mpmc_fifo_push(hptr, &fifo, n);
+  }
+  sim_probe("destroyed_with_nodes_queued", leftover > 0);
+  mpmc_fifo_destroy(hptr, &fifo);
   hazard_pointer_thread_record_destroy_all(atomic_load(&hp_head));
   sim_probe("nodes_reclaimed", reclaimed_total);
   sim_probe("nodes_reused", reused_total);
